@@ -220,6 +220,11 @@ def _save_file(
         weight_map: dict[str, str] = {}  # Maps tensor name to shard filename
         current_offset = 0
         current_index = 0
+        # Shards partition tensors_to_save in order, so the values can be walked alongside.
+        # Entries are keyed by the (unique) initializer name, which is what _replace_tensors maps
+        # back by: tensor.name may be unset, differ from the initializer name, or be shared by
+        # several initializers that hold the same tensor object.
+        value_iter = iter(values_to_save)
         for shard_idx, tensor_shard in enumerate(tensor_shards, start=1):
             shard_filename = _get_shard_filename(str(location), shard_idx, total_shards)
 
@@ -241,14 +246,15 @@ def _save_file(
                             shard_index=shard_index,
                         ),
                     )
-                assert tensor.name is not None
-                shard_dict[tensor.name] = {
+                name = next(value_iter).name
+                assert name is not None
+                shard_dict[name] = {
                     "dtype": _IR_DTYPE_TO_SAFETENSORS_DTYPE[tensor.dtype],
                     "shape": _get_tensor_storage_shape(tensor),
                     "data": tensor.tobytes(),
                 }
                 # Update weight_map with shard filename
-                weight_map[tensor.name] = shard_filename
+                weight_map[name] = shard_filename
                 current_offset += tensor.nbytes
                 current_index += 1
 
